@@ -35,7 +35,9 @@ def patterns():
         'none': [],
         'int': [(T('int'), 'int', '41')],
         'int-double': [(T('int'), 'int', '41'), (T('double'), 'double', '4.5')],
-        'string-bool-size_t': [(T('string'), 'str', '"d0"'), (T('bool'), 'bool', 'true'), (T('size_t'), 'int', '43')],
+        'string-bool-size_t': [(T('string'), 'str', '"d  0"'), (T('bool'), 'bool', 'true'), (T('size_t'), 'int', '43')],
+        # parameters whose names are Python keywords keep their declared names as keyword arguments
+        'keyword-named': [(T('int'), 'int', '41', 'lambda'), (T('double'), 'double', '4.5', 'from'), (T('int'), 'int', '43', 'in')],
         'int4': [(T('int'), 'int', '41'), (T('int'), 'int', '42'), (T('int'), 'int', '43'), (T('int'), 'int', '44')],
         'cref-string-double3': [(T('string', 1, '&'), 'str', '"s0"'), (T('double'), 'double', '1.5'),
                                 (T('double'), 'double', '2.5'), (T('double', 1, '&'), 'double', '3.5')],
@@ -66,7 +68,7 @@ def callables():
     for pk, pat in pats.items():
         n = len(pat)
         maxk = 0
-        for t, g, dflt in reversed(pat):
+        for t, g, dflt, *_ in reversed(pat):
             if dflt is None:
                 break
             maxk += 1
@@ -86,8 +88,8 @@ def make_args(c):
     pat = patterns()[c['pat']]
     n = len(pat)
     args = []
-    for i, (t, g, dflt) in enumerate(pat):
-        args.append(arg(t, NAMES[i], dflt if i >= n - c['k'] else None))
+    for i, (t, g, dflt, *nm) in enumerate(pat):
+        args.append(arg(t, nm[0] if nm else NAMES[i], dflt if i >= n - c['k'] else None))
     return args
 
 
@@ -116,7 +118,7 @@ def build_unit(unit):
         r = RETURNS[c['ret']]
         name = '%s%d' % ({'method': 'm', 'cmethod': 'cm', 'static': 's', 'function': 'fn', 'ctor': 'ct'}[kind], i)
         step = {'pat': c['pat'], 'k': c['k'], 'ret': c['ret'], 'names': [a['n'] for a in args],
-                'gens': [g for _, g, _ in patterns()[c['pat']]],
+                'gens': [p[1] for p in patterns()[c['pat']]],
                 'defaults': [a['d'] for a in args]}
         if kind in ('method', 'cmethod'):
             members.append(D.method(r, name, args, 1 if kind == 'cmethod' else 0))
@@ -209,9 +211,9 @@ def special_unit():
     # properties
     gt.append(D.cls('Pr', [D.ctor('Pr'), D.prop(T('int'), 'p1'), D.prop(T('int'), 'p2'), D.prop(T('double', 1), 'fixed'),
                            D.prop(T('string'), 'name'), D.prop(T(A), 'obj'), D.prop(T('gt::Kind'), 'kind'),
-                           D.prop(T('string', 1), 'cname')]))
+                           D.prop(T('string', 1), 'cname'), D.prop(T(A, 1, '*'), 'cshared')]))
     plan.append({'kind': 'props', 'cls': 'gt.Pr', 'rw': [['p1', 'int'], ['p2', 'int'], ['name', 'str'], ['kind', 'enum:gt.Kind']],
-                 'ro': ['fixed', 'cname'], 'objprop': 'obj'})
+                 'ro': ['fixed', 'cname', 'cshared'], 'objprop': 'obj'})
     # enumerators
     plan.append({'kind': 'enum', 'path': 'gt.Kind', 'values': {'Dog': 5, 'Cat': 9, 'Emu': 13}})
     plan.append({'kind': 'enum', 'path': 'gt.Holder.Mode', 'values': {'FAST': 5, 'SLOW': 9, 'OFF': 13}})
@@ -280,7 +282,7 @@ def gen_value(g, pos):
         e = get(g[5:]); members = list(e.__members__.values()); return members[pos % len(members)], None
     raise ValueError(g)
 
-DEFAULT_REPR = {'41': '41', '42': '42', '43': '43', '44': '44', '4.5': '4.5', '"d0"': 's:d0', 'true': 'true', '47': '47', '49': '49',
+DEFAULT_REPR = {'"d  0"': 's:d  0', '41': '41', '42': '42', '43': '43', '44': '44', '4.5': '4.5', '"d0"': 's:d0', 'true': 'true', '47': '47', '49': '49',
                 'gt::Kind::Cat': 'e:9', 'gt::Holder::Mode::SLOW': 'e:9', 'std::vector<int>(2, 7)': '[7,7]', "'q'": 'c:113', '200': 'uc:200',
                 '"s0"': 's:s0', '1.5': '1.5', '2.5': '2.5', '3.5': '3.5', '3': '3', '2': '2', '9': '9'}
 
